@@ -509,8 +509,9 @@ class SpectrumAnalyzer:
             if not np.any(mask):
                 raise ValueError("No frequencies found in the specified band.")
             # apply mask to vector fields
-            for key in ("f", "r", "b", "L", "K", "navg", "O"):
-                plan_output[key] = plan_output[key][mask]
+            for key in ("f", "r", "b", "m", "L", "K", "navg", "O"):
+                if key in plan_output:
+                    plan_output[key] = np.asarray(plan_output[key])[mask]
             # D is ragged -> filter by mask
             plan_output["D"] = [d for d, keep in zip(D_norm, mask) if keep]
             plan_output["nf"] = int(plan_output["f"].shape[0])
